@@ -18,6 +18,7 @@ pub fn prop() -> Prop {
         subs: vec![
             Sub::enumerate("store_load", store_load),
             Sub::tape("iterator_scripts", 40, 300_000, 15_000_000, iterator_scripts),
+            Sub::tape("long_buffers", 40, 200_000, 10_000_000, long_buffers),
         ],
     }
 }
@@ -328,6 +329,117 @@ fn iterator_scripts(d: &mut Dec, cx: &mut Cx) -> Res {
         ($t:ty, $bpp:expr) => {
             if combo / 2 == k && out.is_none() {
                 out = Some(if be { script::<$t, BigEndianLsb0>(d, cx, $bpp, true) } else { script::<$t, LittleEndianMsb0>(d, cx, $bpp, false) });
+            }
+            k += 1;
+        };
+    }
+    all_combos!(go);
+    let _ = k;
+    out.unwrap()
+}
+
+
+// ---- long buffers ----------------------------------------------------------------------------
+
+/// Buffers of 250..=700 bytes, one in 40 of 8..64 KiB: pixel indices, byte offsets and bit offsets beyond
+/// 255 and beyond 65535 (index arithmetic in a narrower type would alias them). A few stores, then loads and an iterator positioned with `nth`.
+fn long_case<R, O>(d: &mut Dec, cx: &mut Cx, bpp: u32, be: bool) -> Res
+where
+    R: RawData + Copy + PartialEq + core::fmt::Debug,
+    R::Storage: Into<u32>,
+    O: DataOrder,
+{
+    // one case in 40: a buffer in which the pixel index (sub-byte types) or the byte offset crosses 2^16
+    let huge = d.u(0, 39) == 39;
+    let len = if huge {
+        (if bpp < 8 { 65536 * bpp as usize / 8 } else { 65536 }) + 8 + d.u(0, 24) as usize
+    } else {
+        match d.u(0, 3) {
+            0 => d.pick(&[255usize, 256, 257, 511, 512, 513]),
+            _ => d.u(250, 700) as usize,
+        }
+    };
+    let mut x = d.raw() | 1;
+    let mut buf: Vec<u8> = (0..len)
+        .map(|_| {
+            x ^= x << 13;
+            x ^= x >> 17;
+            x ^= x << 5;
+            x as u8
+        })
+        .collect();
+    let npix = len * 8 / bpp as usize;
+    let mask = if bpp == 32 { u32::MAX } else { (1u32 << bpp) - 1 };
+    // indices: around the powers of two in pixel units and in byte units, the end, and anywhere
+    let ppb8 = |bytes: usize| bytes * 8 / bpp as usize;
+    let index = |d: &mut Dec| -> usize {
+        if huge && d.ratio(3, 4) {
+            // around pixel 2^16 and around byte 2^16
+            let centre = if d.bool() { 65536 } else { 65536 * 8 / bpp as usize };
+            return (centre + d.u(0, 6) as usize).saturating_sub(3).min(npix + 2);
+        }
+        match d.u(0, 4) {
+            0 => (d.pick(&[255usize, 256, 257, 511, 512, 513, 1023, 1024, 2047, 2048, 4095, 4096]) + d.u(0, 2) as usize).min(npix + 2),
+            1 => (ppb8(d.pick(&[255usize, 256, 257, 511, 512])) + d.u(0, 8) as usize).saturating_sub(4).min(npix + 2),
+            2 => npix.saturating_sub(d.u(0, 3) as usize) + d.u(0, 3) as usize,
+            _ => d.u(0, npix as u32 + 2) as usize,
+        }
+    };
+    let nstores = if huge { 1 } else { d.u(1, 4) };
+    let mut stores = vec![];
+    for _ in 0..nstores {
+        let idx = index(d);
+        let v = d.raw() & mask;
+        stores.push((idx, v));
+    }
+    let probes: Vec<usize> = (0..6).map(|_| index(d)).collect();
+    let skip = index(d);
+    cx.describe(|| format!("{} bit {} order, {} bytes; stores (index, value) {:x?}; loads at {:?}; nth({})", bpp, if be { "BigEndianLsb0" } else { "LittleEndianMsb0" }, len, stores, probes, skip));
+    cx.class(match (huge, bpp) {
+        (true, _) => "offsets_beyond_65535",
+        (_, 1 | 2 | 4) => "sub_byte",
+        (_, 8) => "byte",
+        _ => "multi_byte",
+    });
+    for (idx, v) in &stores {
+        let mut exp = buf.clone();
+        let ok_ref = ref_store(&mut exp, bpp, be, *idx, *v);
+        let res = R::from_u32(*v).store::<O>(&mut buf, *idx);
+        ensure!(res.is_ok() == ok_ref, "long:store_result", "store at index {} of {} pixels returned {:?}", idx, npix, res);
+        if buf != exp {
+            let first = buf.iter().zip(exp.iter()).position(|(a, b)| a != b).unwrap();
+            return fail("long:store_bytes", format!("after store({:#x}, index {}) byte {} is {:#04x}, the documented layout gives {:#04x}", v, idx, first, buf[first], exp[first]));
+        }
+        if ok_ref {
+            let l = R::load::<O>(&buf, *idx).map(|r| r.into_inner().into());
+            ensure!(l == Some(*v), "long:load_after_store", "load({}) after store({:#x}) returns {:x?}", idx, v, l);
+        }
+    }
+    for idx in &probes {
+        let l: Option<u32> = R::load::<O>(&buf, *idx).map(|r| r.into_inner().into());
+        ensure!(l == ref_load(&buf, bpp, be, *idx), "long:load", "load({}) = {:x?}, documented layout gives {:x?}", idx, l, ref_load(&buf, bpp, be, *idx));
+    }
+    let mut it = RawDataSlice::<R, O>::new(&buf).into_iter();
+    let got: Option<u32> = it.nth(skip).map(|r| r.into_inner().into());
+    ensure!(got == ref_load(&buf, bpp, be, skip), "long:nth", "nth({}) = {:x?}, documented layout gives {:x?}", skip, got, ref_load(&buf, bpp, be, skip));
+    let remaining = npix.saturating_sub(skip + 1);
+    let (lo, hi) = it.size_hint();
+    ensure!(lo <= remaining && hi.map_or(true, |h| h >= remaining), "long:size_hint", "size_hint {:?} after nth({}) but {} items remain", (lo, hi), skip, remaining);
+    let next: Option<u32> = it.next().map(|r| r.into_inner().into());
+    ensure!(next == ref_load(&buf, bpp, be, skip + 1).filter(|_| skip + 1 < npix), "long:next_after_nth", "next() after nth({}) = {:x?}", skip, next);
+    cx.nontrivial(stores.iter().any(|(i, _)| *i >= 256 && *i < npix));
+    Ok(())
+}
+
+fn long_buffers(d: &mut Dec, cx: &mut Cx) -> Res {
+    let combo = d.u(0, 13);
+    let be = combo % 2 == 1;
+    let mut k = 0;
+    let mut out: Option<Res> = None;
+    macro_rules! go {
+        ($t:ty, $bpp:expr) => {
+            if combo / 2 == k && out.is_none() {
+                out = Some(if be { long_case::<$t, BigEndianLsb0>(d, cx, $bpp, true) } else { long_case::<$t, LittleEndianMsb0>(d, cx, $bpp, false) });
             }
             k += 1;
         };
